@@ -110,6 +110,10 @@ CORPUS_QUERIES = [
     {"segs": [{"k": "child", "sels": [{"t": "wild"}, {"t": "wild"}]}]},
     {"segs": [{"k": "desc", "sels": [{"t": "name", "v": "a"}, {"t": "index", "v": -1}]}]},
     {"segs": [{"k": "child", "sels": [{"t": "wild"}]}, {"k": "desc", "sels": [{"t": "wild"}]}]},
+    # two order-randomising selectors in one segment: each application may use its own member order
+    {"segs": [{"k": "desc", "sels": [{"t": "wild"}, {"t": "wild"}]}]},
+    {"segs": [{"k": "desc", "sels": [{"t": "wild"}, {"t": "filter", "e": {"t": "rel", "q": {"segs": []}}}]}]},
+    {"segs": [{"k": "child", "sels": [{"t": "filter", "e": {"t": "rel", "q": {"segs": []}}}, {"t": "wild"}]}]},
 ]
 
 
@@ -149,7 +153,7 @@ def _build_corpus() -> List[Tuple[Dict[str, Any], Any]]:
 
 
 CORPUS = _build_corpus()
-QUICK_CORPUS_STRIDE = 41  # quick tier: every 41st corpus case + all THREE_RUN_DOCS cases at the end
+QUICK_CORPUS_STRIDE = 53  # quick tier: every 41st corpus case + all THREE_RUN_DOCS cases at the end
 EXHAUST_CAP = {"quick": 64, "thorough": 256}
 
 
@@ -356,8 +360,20 @@ def _gen_random_case(rng) -> Tuple[Dict[str, Any], Any]:
     shape = rng.random()
     if shape < 0.6:
         doc = D.random_tree(rng, max_nodes=rng.choice((4, 6, 8, 10, 14)), max_depth=rng.choice((2, 3, 4)), p_dict=rng.choice((0.2, 0.5, 0.8)), max_width=rng.choice((2, 3, 4)))
-    elif shape < 0.8:
+    elif shape < 0.7:
         _q, doc = CORPUS[rng.randrange(len(CORPUS))]
+    elif shape < 0.8:
+        # wide: an array of 10..40 containers, or an object with 5..9 members (the
+        # permitted set stays enumerable when the children are leaves)
+        n = rng.choice((10, 16, 17, 18, 32, 33, 40))
+        kind = rng.random()
+        if kind < 0.5:
+            doc = [[i] if rng.random() < 0.7 else {"a": i} for i in range(1, n + 1)]
+        elif kind < 0.75:
+            doc = {"a": [[i] for i in range(1, n + 1)], "b": 1}
+        else:
+            m = rng.choice((5, 6, 7, 9))
+            doc = {f"k{i}": (i if rng.random() < 0.6 else [i]) for i in range(1, m + 1)}
     else:
         doc = D.random_tree(rng, max_nodes=rng.choice((16, 24, 40)), max_depth=5, p_dict=0.5, max_width=3)
     f = Q.Features(
@@ -393,7 +409,12 @@ def run_one(seed: int, tier: str, index: int) -> Dict[str, Any]:
         rng = seeds.stream(seed, "choices")
         k = wl.choice((4, 8, 8, 16, 32))
         streams = [(rng.getrandbits(48), simrandom.draw_profile(rng), None) for _ in range(k)]
-        res = check_case(q, doc, streams)
+        if wl.random() < 0.02:
+            # exhaustiveness beyond the fixed corpus: a random small case, searched like a corpus case
+            res = check_case(q, doc, streams, exhaust_budget=20_000, exhaust_seed=seed, exhaust_cap=32)
+            res["stats"]["runs_random_exhaust"] += 1
+        else:
+            res = check_case(q, doc, streams)
         res["stats"]["runs_random"] += 1
     sample = None
     if index % 997 == 0 or (index < len(cidx) and index % 7 == 0):
